@@ -1,3 +1,83 @@
 // harnesses mounted as child module of agdb/src/collections/vec.rs
 #[allow(unused_imports)]
 use super::*;
+
+use crate::storage::verif_h::fresh_arr_storage;
+use crate::verif_support::ArrStorage;
+use crate::verif_support::is_ok;
+use crate::verif_support::ok;
+
+// ---------------------------------------------------------------------------
+// C07: DbVec::from_storage on a record with arbitrary short content
+// ---------------------------------------------------------------------------
+
+/// Storage whose record 1 holds `n` (concrete) arbitrary bytes.
+fn c07_storage_with_record<const N: usize>() -> (Storage<ArrStorage>, [u8; N]) {
+    let mut s = fresh_arr_storage();
+    let content: [u8; N] = kani::any();
+    let idx = ok(s.insert_bytes(&content));
+    assert!(idx.0 == 1);
+    (s, content)
+}
+
+fn c07_le64<const N: usize>(b: &[u8; N]) -> u64 {
+    u64::from_le_bytes([b[0], b[1], b[2], b[3], b[4], b[5], b[6], b[7]])
+}
+
+fn c07_check_element<const N: usize>(v: &DbVec<i64, ArrStorage>, s: &Storage<ArrStorage>, content: &[u8; N], i: u64) {
+    let e = v.value(s, i);
+    let inside = i < v.len() && 8 + 8 * (i + 1) <= N as u64;
+    match &e {
+        Ok(x) => {
+            assert!(inside, "only elements inside the record can be read");
+            let off = 8 + 8 * i as usize;
+            assert!(*x == i64::from_le_bytes([content[off], content[off + 1], content[off + 2], content[off + 3], content[off + 4], content[off + 5], content[off + 6], content[off + 7]]), "element bytes");
+        }
+        Err(_) => assert!(!inside, "an element inside the record must be readable"),
+    }
+    std::mem::forget(e);
+}
+
+/// `from_storage` for element types of 8 and 32 bytes on a record of `N`
+/// arbitrary bytes; then reads through the vector.
+fn c07_from_storage_record<const N: usize>() -> bool {
+    let mut huge_len = false;
+    let (s, content) = c07_storage_with_record::<N>();
+    let r8 = DbVec::<i64, ArrStorage>::from_storage(&s, StorageIndex(1));
+    let r32 = DbVec::<crate::DbKeyValue, ArrStorage>::from_storage(&s, StorageIndex(1));
+    assert!(r8.is_ok() == (N >= 8) && r32.is_ok() == (N >= 8), "Ok exactly when the 8-byte length is present");
+    if let Ok(v) = &r8 {
+        // the length is whatever the file says - possibly far beyond the record
+        assert!(v.len() == c07_le64(&content), "len is read from the record");
+        assert!(v.storage_index().0 == 1, "storage index kept");
+        c07_check_element(v, &s, &content, 0);
+        c07_check_element(v, &s, &content, 1);
+        c07_check_element(v, &s, &content, 1 << 55);
+        huge_len = v.len() > 1000;
+    }
+    if let Ok(v) = &r32 {
+        assert!(v.len() == c07_le64(&content), "len is read from the record");
+        assert!(v.capacity() == 0, "no 32-byte element fits");
+    }
+    std::mem::forget(r8);
+    std::mem::forget(r32);
+    std::mem::forget(s);
+    huge_len
+}
+
+//@ id=C07 tier=quick timeout=900 bounds="record content of 7 and 16 bytes (enumerated), all bytes symbolic (so the stored length is any u64); element indexes 0, 1, 2^55" desc="DbVec::from_storage on a record with arbitrary short content never panics: Err below 8 bytes (and for a missing record), otherwise len = the stored u64 however large; value() through such a vector returns Err for elements outside the record and the stored bytes for those inside" cbmc="--max-field-sensitivity-array-size 200" kernel="DbVec::from_storage,VecImpl::value,VecImpl::len,VecImpl::capacity,DbVecData::value,Storage::value,Storage::value_size,Storage::value_as_bytes_at_size"
+#[kani::proof]
+#[kani::stub(std::fmt::format, crate::verif_support::fmt_stub)]
+#[kani::stub(crate::DbError::new, crate::verif_support::dberror_new_stub)]
+#[kani::stub(<crate::DbError as std::convert::From<std::array::TryFromSliceError>>::from, crate::verif_support::sliceerr_stub)]
+#[kani::unwind(4)]
+fn c07_dbvec_from_storage_arbitrary_record() {
+    c07_from_storage_record::<7>();
+    let huge = c07_from_storage_record::<16>();
+    kani::cover!(huge, "len claims far more elements than the record holds");
+    let s = fresh_arr_storage();
+    assert!(!is_ok(DbVec::<i64, ArrStorage>::from_storage(&s, StorageIndex(1))), "missing record is an error");
+    assert!(!is_ok(DbVec::<i64, ArrStorage>::from_storage(&s, StorageIndex(0))), "index 0 is an error");
+    kani::cover!(true, "end of harness reachable");
+    std::mem::forget(s);
+}
